@@ -1,7 +1,8 @@
 (* C17 - Board-settings files are read back as the boards that were written, in order.
    Only statements, each closed by [exact]; proofs are in the files imported below. *)
 From BE Require Import Gen.JsonFns Proofs.JsonGen Proofs.JsonGenCor.
-From BE Require Import Model.Json Model.Schema Model.Pbn Gen.JsonFraming Gen.Schemas Gen.Regexes Proofs.Json Proofs.Pbn Proofs.Pins.
+From BE Require Import Model.Json Model.Schema Model.Pbn Model.JsonFramingHand Model.SchemasHand Gen.Regexes Proofs.Json Proofs.Pbn Proofs.Pins Proofs.JsonPins.
+From BE Require Gen.JsonFraming Gen.Schemas.
 From Coq Require Import ZArith.
 Local Open Scope string_scope.
 Local Open Scope nat_scope.
@@ -57,6 +58,17 @@ Theorem C17_json_settings_roundtrip_generated :
   exists ss', g_read_settings (g_settings_doc ss) = Some ss' /\ Forall2 setting_equiv ss ss'.
 Proof. exact g_settings_roundtrip. Qed.
 Print Assumptions C17_json_settings_roundtrip_generated.
+
+(* the framing literals re-read from writer.py on this run are the ones the proofs use *)
+Theorem C17_source_framing_is_the_modelled_one :
+  Gen.JsonFraming.json_framing = Model.JsonFramingHand.json_framing.
+Proof. exact framing_pinned. Qed.
+Print Assumptions C17_source_framing_is_the_modelled_one.
+
+Theorem C17_source_schema_is_the_modelled_one :
+  Gen.Schemas.setting_schema = Model.SchemasHand.setting_schema.
+Proof. exact setting_schema_pinned. Qed.
+Print Assumptions C17_source_schema_is_the_modelled_one.
 
 (* non-vacuity *)
 Theorem C17_json_example :
